@@ -24,6 +24,9 @@ UNITS += [GU("reader_lock", "h_reader_lock", "p_rwlock_reader_lock", 3, "p_rwloc
           GU("reader_trylock", "h_reader_trylock", "p_rwlock_reader_trylock", 2), GU("writer_trylock", "h_writer_trylock", "p_rwlock_writer_trylock", 2),
           GU("reader_unlock", "h_reader_unlock", "p_rwlock_reader_unlock", 2), GU("writer_unlock", "h_writer_unlock", "p_rwlock_writer_unlock", 3),
           GU("null", "h_null", "p_rwlock_reader_lock", 1)]
+# the initial state the monitor invariant starts from: a new general-model lock has both counter words zero (unit shared with C18, where its allocation-failure exits matter)
+UNITS.append(dict(id="general_new", harness="../C18/misc.c", entry="h_rwlock_new", sources=["prwlock-general.c"], enforce=None, replace=[], defines=["UNIT_RWLOCK_NEW"], canaries=2, timeout=300,
+                  functions=["p_rwlock_new", "p_rwlock_free"], cbmc_flags=["--unwind", "8", "--unwinding-assertions", "--object-bits", "10"]))
 REQUIRE_CONFIGURED = ["prwlock-posix.c"]
 TECHNIQUE = "CBMC contracts: prwlock-posix.c as an exact wrapper of pthread_rwlock (call-log refinement); prwlock-general.c by the monitor rule (invariant handed over at lock/wait, checked at unlock/wait) with loop contracts on the predicate re-check loops"
 LEVEL_TEXT = ("Native model: every operation is exactly one pthread_rwlock call of the right kind on the handle inside the object, TRUE iff it returned 0, try variants never call a blocking "
